@@ -346,6 +346,7 @@ pub fn class_relevant(contract: &str, class: &str, prop: &str) -> bool {
         "method-generics" | "predicate-dropped" | "predicate-added" | "impl-where" | "parameter-types" | "return-type" | "qualifiers" | "trait-arguments" | "module-generic-name-clash"
         | "nodeps-elided-return-rebinds" | "undeclared-lifetime-in-header" | "uninferable-generic-not-forwarded" | "deps-generic-still-referenced" | "where-clause-split" | "relaxed-where-on-method"
         | "module-sibling-generic" | "impl-header-lifetime-after-type" | "impl-header-default" => &["C03", "C06", "C09"],
+        "deps-predicate-kept" => &["C01", "C03", "C04", "C07"],
         "mock-attributes" => &["C10", "C17"],
         "nested-attribute" | "blanket-generic" | "by-value-through-as-ref" | "impl-trait-in-header" | "fragment-dependency-taken-as-concrete" => &["C05", "C03"],
         "async-trait-reapplied" | "impl-attributes" => &["C12", "C18"],
